@@ -13,7 +13,8 @@
 //     has applied its batch and left, and after its own log_and_apply has returned;
 //   * KeyValueStore::load and KeyValueStore::range_scan snapshot at a timestamp t with F(t);
 //   * the flush thread's roll-over critical section (_memtable_thread: new memtable and log, seq_no + 1, its own turn in
-//     the wait list) leaves the published watermark a fully applied prefix.
+//     the wait list) leaves the published watermark a fully applied prefix, makes the memtable that was being written to the
+//     immutable one -- so its entries stay in a read layer -- hands that very memtable to the flush and gives writers a fresh one.
 // The invariant is established by open() (nothing is in flight) and holds at every release of the mutex; a wait on a
 // condition variable inside a critical section hands back any state satisfying it.
 // ASSUMED: writers are linked into the wait list in timestamp order (link and the timestamp assignment share one
@@ -49,10 +50,12 @@ struct LogArc { _p: u8 }
 #[verifier::external_body]
 struct VersionRef { _p: u8 }
 impl MemArc {
+    // which memtable this Arc points to
+    uninterp spec fn id(&self) -> int;
     #[verifier::external_body]
     fn approximate_size(&self) -> (r: usize) { unimplemented!() }
     #[verifier::external_body]
-    fn arc_clone(&self) -> (r: MemArc) { unimplemented!() }
+    fn arc_clone(&self) -> (r: MemArc) ensures r.id() == self.id() { unimplemented!() }
 }
 impl LogArc {
     #[verifier::external_body]
@@ -255,8 +258,9 @@ impl RollState {
 fn log_file(root: &Root, n: u64) -> (r: PathBuf) { unimplemented!() }
 #[verifier::external_body]
 fn swap_paths(a: &mut PathBuf, b: &mut PathBuf) { unimplemented!() }
+// `Arc::new(MemTable::default())`: a memtable nobody else points to
 #[verifier::external_body]
-fn new_memtable() -> (r: MemArc) { unimplemented!() }
+fn new_memtable(Ghost(not): Ghost<int>) -> (r: MemArc) ensures r.id() != not { unimplemented!() }
 #[verifier::external_body]
 struct Condvar { _p: u8 }
 impl Condvar {
@@ -266,8 +270,9 @@ impl Condvar {
     fn wait_roll(&self, state: &mut RollState) requires old(state).inv() ensures final(state).inv(), final(state).seq_no < 0xffff_ffff_ffff_ffff { unimplemented!() }
 }
 impl WaitGuard {
+    // (only the flush thread, which is this thread, replaces mem / imm: the other threads' critical sections leave them alone)
     #[verifier::external_body]
-    fn naked_wait_roll(&self, state: &mut RollState) requires old(state).inv() ensures final(state).inv() { unimplemented!() }
+    fn naked_wait_roll(&self, state: &mut RollState) requires old(state).inv() ensures final(state).inv(), final(state).mem == old(state).mem, final(state).imm == old(state).imm { unimplemented!() }
 }
 struct FlushStore { root: Root, wait_list: WaitList, cnd_needs_memtable_flush: Condvar }
 impl FlushStore {
@@ -291,7 +296,7 @@ fn memtable_rollover(kvs: &FlushStore, state: &mut RollState) -> (r: Result<(Mem
 //@ rewrite-re X18 `Arc::clone\(&state\.(\w+)\)` => `state.\1.arc_clone()`
 //@ rewrite-re X7 `LOG_FILE\(&kvs\.root, ([\w.]+)\)` => `log_file(&kvs.root, \1)`
 //@ rewrite X7 `std::mem::swap(&mut imm_path, &mut state.mem_path);` => `swap_paths(&mut imm_path, &mut state.mem_path);`
-//@ rewrite X18 `Arc::new(MemTable::default())` => `new_memtable()`
+//@ rewrite X18 `Arc::new(MemTable::default())` => `new_memtable(Ghost(old_mem_id))`
 //@ rewrite-re X7 `(?s)kvs\.poison\(Self::start_new_log\(\s*&state\.mem_path,\s*kvs\.options\.log\.clone\(\),\s*\)\)\?` => `kvs.start_new_log(&state.mem_path)?`
 //@ rewrite X23 `kvs.wait_list.link(())` => `kvs.wait_list.link(Ghost(state.seq_no))`
 //@ rewrite X18 `drop(wait_guard);` => `drop_guard(wait_guard);`
@@ -303,12 +308,19 @@ fn memtable_rollover(kvs: &FlushStore, state: &mut RollState) -> (r: Result<(Mem
 //@ post <<
         // however long it waited and whatever it swapped: what readers snapshot at is still a fully applied prefix
         final(state).inv(),
+        // the memtable that was being written to is now the immutable one -- readers still find its entries -- it is the one
+        // handed to the flush, and writers get a fresh one
+        r is Ok ==> final(state).imm is Some && final(state).imm->Some_0.id() == r->Ok_0.0.id() && final(state).mem.id() != r->Ok_0.0.id(),
 //@ >>
 //@ loop 0 <<
             invariant state.inv(), state.seq_no < 0xffff_ffff_ffff_ffff,
 //@ >>
+//@ afterloop 0 <<
+                let ghost old_mem_id = state.mem.id();
+//@ >>
 //@ loop 1 <<
             invariant /* contract-inv */ state.inv(),
+                /* contract-inv */ state.imm is Some && state.imm->Some_0.id() == imm.id() && imm.id() == old_mem_id && state.mem.id() != old_mem_id,
 //@ >>
 //@ end
 
